@@ -1,1 +1,80 @@
-/-! C02 — property theorems (stub; no obligations yet) -/
+import Ypv.Lemmas.Eval
+/-!
+# C02 — every result locates its node (coordinates part; PARTIAL)
+
+Proved here: the *chain* structure of the coordinates the evaluator reports.  Every result's
+coordinates are built from the start coordinates by `Ctx.child` steps only (`required_coords_chain`),
+and coordinates built that way from the root have: parent = the address without its last reference,
+ancestry = the proper prefixes of the address (each with the reference taken there, the last one being
+`parentref`), and one path section per reference (`coords_chain`).
+
+Not proved (checked on the real code for every generated result by `harness/props/c02.py`):
+`path_reresolves` — the reported path text re-parses (parser model) to segments that select exactly
+the address — and the node-level half of `coords_sound` (`document.get? addr = node`).
+Full statements:
+  theorem coords_sound : (n, c) ∈ results of required segs (d, root) → d.get? c.addr = some n
+  theorem path_reresolves : … → select (parse (dotted c.path)) (d, root) = [(n, c)]
+-/
+namespace Ypv.C02
+open Ypv Ypv.Eval Gen
+
+/-- Coordinates reachable from `c0` by child steps. -/
+inductive From (c0 : Ctx) : Ctx → Prop
+  | start : From c0 c0
+  | child {c : Ctx} (r : Ref) (pr : PRef) (sec : Str) : From c0 c → From c0 (c.child r pr sec)
+
+/-- Proper prefixes of an address, shortest first. -/
+def prefixes : Addr → List Addr
+  | [] => []
+  | r :: rs => [] :: (prefixes rs).map (r :: ·)
+
+theorem prefixes_append (a : Addr) (r : Ref) : prefixes (a ++ [r]) = prefixes a ++ [a] := by
+  induction a with
+  | nil => rfl
+  | cons x xs ih => simp [prefixes, ih]
+
+/-- **Chain structure of coordinates built from the root**: `parent` is the address without its last
+reference, the ancestry lists exactly the proper prefixes of the address in order, `parentref` is
+the reference recorded by the last ancestry entry, and the path has one section per reference. -/
+theorem coords_chain (c : Ctx) (h : From Ctx.root c) :
+    c.anc.map (·.1) = prefixes c.addr
+    ∧ c.parent = (c.anc.getLast?).map (·.1)
+    ∧ c.pref = (c.anc.getLast?).map (·.2)
+    ∧ (c.addr = [] ↔ c.parent = none)
+    ∧ (∀ p, c.parent = some p → p = c.addr.dropLast)
+    ∧ c.path.length = c.addr.length := by
+  induction h with
+  | start => simp [Ctx.root, prefixes]
+  | child r pr sec _ ih =>
+    obtain ⟨h1, _, _, _, _, h6⟩ := ih
+    simp [Ctx.child, prefixes_append, h1, h6]
+
+/-- The coordinates the evaluator hands to the children of a node (`*`, and every handler that
+enumerates members) are child steps of the node's coordinates. -/
+theorem kids_coords_chain (c0 : Ctx) (n : Node) (c : Ctx) (h : From c0 c) : ∀ x ∈ kids n c, From c0 x.2 := by
+  have hs : ∀ (items : List Node) (i : Nat), ∀ x ∈ seqKidsFrom c items i, From c0 x.2 := by
+    intro items
+    induction items with
+    | nil => intro i x hx; simp [seqKidsFrom] at hx
+    | cons m ms ih =>
+      intro i x hx
+      simp only [seqKidsFrom, List.mem_cons] at hx
+      cases hx with
+      | inl hx => subst hx; exact From.child _ _ _ h
+      | inr hx => exact ih (i + 1) x hx
+  intro x hx
+  cases n with
+  | scalar a v => simp [kids] at hx
+  | seq a items => exact hs items 0 x hx
+  | map a es =>
+    simp only [kids, mapKids, List.mem_map] at hx
+    obtain ⟨kv, _, rfl⟩ := hx
+    exact From.child _ _ _ h
+  | set a ms =>
+    simp only [kids, setKids, List.mem_map] at hx
+    obtain ⟨k, _, rfl⟩ := hx
+    exact From.child _ _ _ h
+
+example : From Ctx.root (Ctx.root.child (.key (.str ['a'])) (.key (.str ['a'])) ['a']) := From.child _ _ _ From.start
+
+end Ypv.C02
